@@ -148,15 +148,16 @@ class Application():
 
     def __regex(self, match):
         groups = match.groups()
-        _filter = str(groups[1]).lower()
+        _filter = str(groups[1])
+        _lfilter = _filter.lower()      # only filter names are case insensitive
 
-        if _filter in self.__filters:
-            regex = self.__filters[_filter][0]
-        elif _filter[:4] == ':re:':     # :re: filter have user defined regex
-            regex = _filter[4:]
+        if _lfilter in self.__filters:
+            regex = self.__filters[_lfilter][0]
+        elif _lfilter[:4] == ':re:':    # :re: filter have user defined regex
+            regex = _filter[4:]         # which is used as it is written
         else:
             try:
-                regex = self.__filters[_filter][0]
+                regex = self.__filters[_lfilter][0]
             except KeyError as err:
                 raise RuntimeError("Undefined route group filter '%s'" %
                                    _filter) from err
